@@ -265,14 +265,19 @@ def run(rep, tier, seed, keep=False):
         reps_q = ['.', '=~', '*', 'mod', '+', '<', 'and', 'or', '->']
         reps_t = ['.', '?.', '=~', '!~', '*', '/', 'mod', '+', '-', '<', '>=', '=', 'in', 'and', 'or', '->']
         # default table
-        r, dump = gen(wd, 'std', 'standard', [()], reps_q if quick else reps_t, ['-', 'not', '+'], [], 2 if quick else 3, 1 if quick else 2,
+        # (TLC refuses to build sets of more than 10^6 elements: the thorough tier splits the space into several jobs)
+        r, dump = gen(wd, 'std', 'standard', [()], reps_q if quick else reps_q + ['-'], ['-', 'not', '+'], [], 2 if quick else 3, 1,
                       kinds if quick else ['atom', 'par', 'idx'])
         rep.tlc('Grammar/G+M standard table', r)
         n1 = replay_states(rep, dump, 'standard', [()], engines, rng, 'standard', nsub=1, keep_frac=1.0 if quick else 0.5)
-        r, dump = gen(wd, 'std2', 'standard', [()], ['.', '*', '+', '<', 'and', '->'] if quick else reps_q, ['-', 'not', '+'], [], 2, 2,
+        r, dump = gen(wd, 'std2', 'standard', [()], ['.', '*', '+', '<', 'and', '->'] if quick else reps_t, ['-', 'not', '+'], [], 2, 2,
                       ['atom'] if quick else kinds)
         rep.tlc('Grammar/G+M standard table, two prefix operators', r)
-        n1 += replay_states(rep, dump, 'standard', [()], engines, rng, 'standard', nsub=1)
+        n1 += replay_states(rep, dump, 'standard', [()], engines, rng, 'standard', nsub=1, keep_frac=1.0 if quick else 0.5)
+        if not quick:
+            r, dump = gen(wd, 'std3', 'standard', [()], ['.', '*', '+', '<', 'and', 'or', '->', '=~'], ['-', 'not'], [], 3, 2, ['atom'])
+            rep.tlc('Grammar/G+M standard table, 3 binary operators with two prefix operators', r)
+            n1 += replay_states(rep, dump, 'standard', [()], engines, rng, 'standard', nsub=1, keep_frac=0.3)
         # legacy table
         r, dump = gen(wd, 'leg', 'legacy', [()], ['.', '*', '+', '<', 'and', 'or', '=>', '->'], ['-', 'not'], [], 2 if quick else 3, 1,
                       ['atom', 'par'] if quick else kinds)
@@ -283,7 +288,38 @@ def run(rep, tier, seed, keep=False):
         r, dump = gen(wd, 'cust', 'standard', calls_list, ['*', '+', 'or', '->', '**', '~'], ['-', 'not', '~'], ['!', '~'], 2, 1,
                       ['atom'] if quick else ['atom', 'par', 'idx'])
         rep.tlc('Grammar/G+M insert_operator tables', r)
+        by_calls = {}
+        for st in tlaval.parse_dump(dump):
+            if st['out']['st'] == 'ok' and st['out']['ok'] and len(st['toks']) >= 3:
+                by_calls.setdefault(calls_list[st['tid'] - 1], []).append(st)
         n3 = replay_states(rep, dump, 'standard', calls_list, engines, rng, 'custom', nsub=0, keep_frac=0.15 if quick else 0.6)
+        # histories on ONE factory: create(), insert_operator(...), create() again ... every engine follows the table it was created from
+        nhist = 0
+        for calls in [c for c in calls_list if len(c) >= 1 and c in by_calls][:(25 if quick else 200)]:
+            try:
+                f = real_factory('standard', ())
+                made = [((), f.create())]
+                from yaql.language import factory as _factory
+                for i, (existing, ebin, new, typ, grp) in enumerate(calls):
+                    f.insert_operator(existing or None, bool(ebin), new, getattr(_factory.OperatorType, TYPES[typ]), bool(grp))
+                    made.append((calls[:i + 1], f.create()))
+            except Exception:
+                continue
+            for prefix, eng in made:
+                for st in rng.sample(by_calls.get(prefix, []), min(12, len(by_calls.get(prefix, [])))):
+                    toks = [str(t) for t in st['toks']]
+                    text, sub, atoms = concretise(toks, rng, substitute=False)
+                    want = mtree(st['out']['t'], sub)
+                    try:
+                        got = rtree(eng(text).expression, atoms)
+                    except Exception as e:  # noqa
+                        got = ('raises', type(e).__name__, str(e)[:80])
+                    nhist += 1
+                    rep.evaluations += 1
+                    if got != want:
+                        rep.violation('C02/factory-history/tree', 'factory history create();%s: engine created after %r parses %r as %r, its table dictates %r' % (
+                            ''.join(' insert%r; create();' % (c,) for c in calls), prefix, text, got, want), {'base': 'standard', 'calls': calls, 'text': text})
+        rep.extra['factory_history_parses'] = nhist
         rep.extra['replayed'] = {'standard': n1, 'legacy': n2, 'custom': n3, 'custom_tables': len(calls_list),
                                  'real_engines_built': len(engines.cache)}
         rep.exhaustive = True
